@@ -38,6 +38,7 @@ def main():
     ap.add_argument('dir')
     ap.add_argument('--checks', default='')
     ap.add_argument('--no-suite', action='store_true')
+    ap.add_argument('--suite-only', action='store_true', help='only (re)run the pinned suite and update meta.json')
     ap.add_argument('--needs', default='')
     args = ap.parse_args()
     src = Path(args.dir)
@@ -45,6 +46,9 @@ def main():
     demo = (src / 'demo.py').resolve()
     name = f'{args.prop}-{args.label}'
     meta = {'property': args.prop, 'label': args.label, 'ran': []}
+    old_meta = ROOT / 'seeded' / name / 'meta.json'
+    if args.suite_only and old_meta.exists():
+        meta = json.loads(old_meta.read_text())
 
     wt = Path(tempfile.mkdtemp(prefix=f'seedwt_{name}_', dir='/tmp'))
     wt.rmdir()
@@ -52,6 +56,11 @@ def main():
     assert rc == 0, out
     try:
         rc, out = sh(f'git apply {patch}', cwd=wt)
+        if rc != 0:  # the tree has moved on since the patch was written (a later fix: commit): merge
+            rc, out = sh(f'git apply --3way {patch}', cwd=wt)
+            meta['applied_with_3way'] = rc == 0
+            if rc == 0:
+                sh('git reset -q', cwd=wt)
         meta['patch_applies'] = rc == 0
         if rc != 0:
             print('PATCH DOES NOT APPLY', out)
@@ -83,7 +92,7 @@ def main():
             print(f'suite: {len(passed & want)}/{len(want)} stable tests pass, missing {missing[:5]}')
         # checks: a private copy of /verif (so that development in /verif can go on) run against the worktree
         # that carries the change (MRPRO_REPO); equivalent to applying the patch to /repo, which stays untouched
-        checks = [args.prop] + [c for c in args.checks.split(',') if c and c != args.prop]
+        checks = [] if args.suite_only else [args.prop] + [c for c in args.checks.split(',') if c and c != args.prop]
         sv = Path('/tmp/verif_seed')
         sh(f'mkdir -p {sv} && rsync -a --delete --exclude .git --exclude seeded --exclude replays /verif/ {sv}/')
         results = {}
@@ -98,13 +107,15 @@ def main():
     finally:
         sh(f'git -C /repo worktree remove --force {wt}')
         shutil.rmtree(wt, ignore_errors=True)
-    meta['checks'] = results
-    meta['caught_by'] = [c for c, r in results.items() if r['exit'] == 1]
-    meta['ran'].append('MRPRO_REPO=<worktree with patch.diff applied> ./check <id> (quick tier), from a copy of /verif')
+    if not args.suite_only:
+        meta['checks'] = results
+        meta['caught_by'] = [c for c, r in results.items() if r['exit'] == 1]
+        meta['ran'].append('MRPRO_REPO=<worktree with patch.diff applied> ./check <id> (quick tier), from a copy of /verif')
     readme = (src / 'README.md').read_text() if (src / 'README.md').exists() else ''
     meta['needs_to_manifest'] = args.needs or readme
     valid = meta.get('demo_exit_with_change', 0) != 0 and meta.get('demo_exit_unchanged', 1) == 0 and (
-        args.no_suite or not meta['suite']['missing'])
+        'suite' not in meta or not meta['suite']['missing'])
+    meta['suite_confirmed'] = 'suite' in meta
     meta['valid'] = valid
     d = ROOT / 'seeded' / name
     d.mkdir(parents=True, exist_ok=True)
